@@ -515,11 +515,15 @@ impl<'a> Judge<'a> {
                     Some(k) => {
                         let rel = relation(actor, k);
                         let relname = format!("{}{}{}", if k.class == Class::Reservation { "reservation-for-" } else { "" }, rel_label(actor, k), label);
-                        let must_fail = prot || rel == Rel::Foreign || (k.class == Class::KvStore && matches!(t, Tgt::Raw(_)));
+                        // dropping is blueprint-granular in the property ("only code of an object's own
+                        // blueprint ... can drop that object") and in the engine, unlike globalize: an
+                        // outer-less object of another blueprint of the actor's own package must not be droppable
+                        let other_bp_same_pkg = rel == Rel::SamePackage && k.class == Class::Object && k.outer.is_none() && k.bp.as_ref().map(|(_, n)| *n != actor.bp).unwrap_or(false);
+                        let must_fail = prot || rel == Rel::Foreign || other_bp_same_pkg || (k.class == Class::KvStore && matches!(t, Tgt::Raw(_)));
                         if must_fail {
                             self.record(shard, actor, st, &relname, "must-fail");
                             if ok {
-                                let sig = if prot { "protected-node-accessed:drop".to_string() } else { format!("drop_object:{}-dropped-by-other-package", if k.class == Class::Reservation { "address-reservation" } else { "object" }) };
+                                let sig = if prot { "protected-node-accessed:drop".to_string() } else if other_bp_same_pkg { "drop_object:object-dropped-by-other-blueprint-of-same-package".to_string() } else { format!("drop_object:{}-dropped-by-other-package", if k.class == Class::Reservation { "address-reservation" } else { "object" }) };
                                 self.violate(shard, &sig, actor, st, Some(k), json!({}));
                             }
                         } else if matches!(rel, Rel::Own | Rel::OwnInner) && k.class == Class::Object {
